@@ -109,16 +109,26 @@ func (r *NetconfResponse) Record(b []byte) {
 
 	r.RawResult = b
 
-	if util.ByteContainsAny(r.RawResult, r.FailedWhenContains) {
+	// what we look for rpc-errors in -- for netconf 1.1 that is the de-chunked payload (when it
+	// could be decoded), as a chunk boundary may fall anywhere, including inside of a tag
+	scanned := r.RawResult
+
+	if r.NetconfVersion == v1Dot1 {
+		if err := r.record1dot1Chunks(); err == nil {
+			scanned = []byte(r.Result)
+		}
+	}
+
+	if util.ByteContainsAny(scanned, r.FailedWhenContains) {
 		patterns := getNetconfPatterns()
 
 		r.Failed = &OperationError{
 			Input:       string(r.Input),
 			Output:      r.Result,
-			ErrorString: string(patterns.rpcErrors.Find(r.RawResult)),
+			ErrorString: string(patterns.rpcErrors.Find(scanned)),
 		}
 
-		for _, rpcerr := range patterns.rpcSingleErrors.FindAll(r.RawResult, -1) {
+		for _, rpcerr := range patterns.rpcSingleErrors.FindAll(scanned, -1) {
 			errStr := string(rpcerr)
 
 			switch {
